@@ -21,3 +21,8 @@ template struct Spectra::RandomScalar<cdouble>;
 template struct Spectra::TypeTraits<double>;
 template struct Spectra::TypeTraits<float>;
 template struct Spectra::TypeTraits<long double>;
+// the throwing primary template (rules that are not defined for the value type)
+template class Spectra::SortingTarget<double, SortRule::LargestReal>;
+template class Spectra::SortingTarget<double, SortRule::SmallestImag>;
+template class Spectra::SortingTarget<float, SortRule::LargestMagn>;
+template class Spectra::SortEigenvalue<float, SortRule::SmallestAlge>;
